@@ -93,6 +93,7 @@ func runCheck(prop string, thorough bool, repo string, writeExpected bool) int {
 	expected := map[string][]string{}
 	loadJSON(filepath.Join(verifRoot, "expected_obligations.json"), &expected)
 
+	vc.LoadLocalsBaseline(filepath.Join(verifRoot, "locals_baseline.json"))
 	eng, err := vc.Load(repo, pc.Packages, filepath.Join(verifRoot, "prelude"))
 	replayPath := filepath.Join(outRoot(), "out", "replay", prop+".json")
 	os.MkdirAll(filepath.Dir(replayPath), 0o755)
@@ -167,6 +168,14 @@ func runCheck(prop string, thorough bool, repo string, writeExpected bool) int {
 		b, _ := json.MarshalIndent(expected, "", " ")
 		os.WriteFile(filepath.Join(verifRoot, "expected_obligations.json"), append(b, '\n'), 0o644)
 		fmt.Printf("wrote %d expected obligations for %s\n", len(exp), prop)
+		// locals of the functions under contract (rename tolerance)
+		lb := map[string][]string{}
+		loadJSON(filepath.Join(verifRoot, "locals_baseline.json"), &lb)
+		for k, v := range eng.CollectLocals() {
+			lb[k] = v
+		}
+		lbb, _ := json.MarshalIndent(lb, "", " ")
+		os.WriteFile(filepath.Join(verifRoot, "locals_baseline.json"), append(lbb, '\n'), 0o644)
 	}
 
 	knownBy := map[string]KnownFinding{}
@@ -301,7 +310,7 @@ func runCheck(prop string, thorough bool, repo string, writeExpected bool) int {
 // Per-back-edge duplicates (~N), safety sweeps and termination obligations are excluded so that
 // harmless restructuring (an extra continue, a removed index expression) is not reported.
 func isContractLabelled(o *vc.Obligation) bool {
-	if strings.Contains(o.Kind, "safe:") || strings.Contains(o.Name, "~") || strings.Contains(o.Kind, "term") || strings.Contains(o.Kind, "inv-") {
+	if strings.Contains(o.Kind, "safe:") || strings.Contains(o.Name, "~") || strings.Contains(o.Kind, "term") || strings.Contains(o.Kind, "inv-") || strings.Contains(o.Name, "/frame:") {
 		return false
 	}
 	return true
